@@ -73,3 +73,28 @@ def scratch(keep: bool = False):
             os.chdir(_HOME)
         if not keep:
             shutil.rmtree(root, ignore_errors=True)
+
+
+def prime_numba() -> None:
+    """Compile (or load from the on-disk cache) porepy's numba-jitted helpers once in the parent process.
+
+    Forked workers then inherit the compiled module-level dispatchers and find a complete disk cache for the
+    function-local ones, instead of 16 processes compiling and writing the same cache files concurrently (observed:
+    minute-long stalls and spurious exceptions when a source file - and with it its numba cache - had just changed).
+    """
+    import numpy as np
+    import scipy.sparse as sps
+
+    import porepy as pp
+
+    for job in (
+        lambda: pp.array_operations.uniquify_point_set(np.array([[0.0, 1.0, 0.0], [0.0, 0.0, 0.0], [0.0, 0.0, 0.0]]), 1e-8),
+        lambda: pp.Exporter(pp.CartGrid([2, 2]), "prime"),
+        lambda: pp.Exporter(pp.CartGrid([1, 1, 1]), "prime"),
+        lambda: pp.matrix_operations.invert_diagonal_blocks(sps.identity(4, format="csr"), np.array([2, 2], dtype=np.int64), method="numba"),
+        lambda: pp.meshing.cart_grid([np.array([[0, 2], [1, 1]]), np.array([[1, 1], [0, 2]])], [2, 2]),
+    ):
+        try:
+            job()
+        except Exception:  # noqa: BLE001  priming is best effort
+            pass
